@@ -1,183 +1,145 @@
 (* C06 -- Type-specialised fast paths never misread a value.
    Property theorems only; proofs live in Proofs/VmArithProofs.v and Proofs/OpcodeSelectProofs.v.
    Words are N < 2^64 (W64); hv is an arbitrary view of the heap's strings.
-   What is NOT a theorem here: "whenever the type checker accepts a program ..." -- sema is not
-   modelled; that half is explored by the whole-pipeline tie (tools/props/c06.py). *)
-From Aelys Require Import Base.Tactics Extracted.ValueConsts Extracted.Opcodes Model.Value
+
+   State of the code modelled: /repo after fix 7e82908 (every type-specialised opcode checks its
+   operand tags and falls back to the generic operation).  The statements are therefore about
+   ALL words and ALL static types: whether a static type is honest no longer matters, which is
+   why the unmodelled half (sema: "whenever the type checker accepts a program ...") is no longer
+   needed for the operations covered here -- see selected_opcode_sound_all_words.  Statements
+   named old_* are about the definitions before the repairs and are kept as the record of what
+   was wrong. *)
+From Aelys Require Import Base.Tactics Extracted.ValueConsts Extracted.Opcodes Extracted.OpcodeSelectTables
+  Extracted.DispatchArms Model.Value
   Proofs.ValueProofs Model.VmArith Proofs.VmArithProofs Model.OpcodeSelect Proofs.OpcodeSelectProofs.
 From Coq Require Import Floats.
 Local Open Scope N_scope.
 
-(* ---------------------------------------------------------------- typed_agrees_when_tagged
-   one theorem per family: every typed op equals the generic op whenever the operand tags
-   are the ones the opcode assumes; for ALL words *)
-Theorem typed_agrees_when_tagged_arith_ii : forall hv o a b,
-  is_int a = true -> is_int b = true -> t_arith_ii o a b = g_arith hv o a b.
-Proof. exact typed_arith_ii_agrees. Qed.
+(* ---------------------------------------------------------------- typed families = generic, ALL words *)
+Theorem typed_total_sound_arith_ii : forall hv o a b, t_arith_ii hv o a b = g_arith hv o a b.
+Proof. exact typed_arith_ii_total. Qed.
 
-Theorem typed_agrees_when_tagged_ord_ii : forall hv o a b,
-  is_ord o = true -> is_int a = true -> is_int b = true -> t_cmp_ii o a b = g_cmp hv o a b.
-Proof. exact typed_ord_ii_agrees. Qed.
+Theorem typed_total_sound_cmp_ii : forall hv o a b, t_cmp_ii hv o a b = g_cmp hv o a b.
+Proof. exact typed_cmp_ii_total. Qed.
 
-(* EqII / NeII (and Lt..Ge again) on the int words the VM creates, Value::int x *)
-Theorem typed_agrees_when_tagged_cmp_ii_ints : forall hv o x y,
-  in48 x -> in48 y -> t_cmp_ii o (v_int x) (v_int y) = g_cmp hv o (v_int x) (v_int y).
-Proof. exact typed_eq_ii_agrees. Qed.
+Theorem typed_total_sound_bit_ii : forall o a b, t_bit_ii o a b = g_bit o a b.
+Proof. exact typed_bit_ii_total. Qed.
 
-(* ... the statement for ALL int-tagged words is false: a word with the int tag and the sign
-   bit set (never built by Value::int) compares equal by payload but not by Value::eq *)
-Theorem typed_agrees_when_tagged_eq_ii_refuted : exists a b,
-  is_int a = true /\ is_int b = true /\ t_cmp_ii CEq a b <> g_cmp no_heap CEq a b.
-Proof. exact eq_ii_all_words_refuted. Qed.
+Theorem typed_total_sound_not_i : forall a, t_not_i a = g_bitnot a.
+Proof. exact typed_not_i_total. Qed.
 
-Theorem typed_agrees_when_tagged_bit_ii : forall o a b,
-  is_int a = true -> is_int b = true -> t_bit_ii o a b = g_bit o a b.
-Proof. exact typed_bit_ii_agrees. Qed.
+Theorem typed_total_sound_arith_ff : forall hv o a b,
+  a < W64 -> b < W64 -> t_arith_ff hv o a b = g_arith hv o a b.
+Proof. exact typed_arith_ff_total. Qed.
 
-Theorem typed_agrees_when_tagged_not_i : forall a, is_int a = true -> t_not_i a = g_bitnot a.
-Proof. exact typed_not_i_agrees. Qed.
+Theorem typed_total_sound_ord_ff : forall hv o a b,
+  is_ord o = true -> a < W64 -> b < W64 -> t_cmp_ff hv o a b = g_cmp hv o a b.
+Proof. exact typed_ord_ff_total. Qed.
 
-Theorem typed_agrees_when_tagged_arith_ff : forall hv o a b,
-  a < W64 -> b < W64 -> is_float a = true -> is_float b = true ->
-  t_arith_ff o a b = g_arith hv o a b.
-Proof. exact typed_arith_ff_agrees. Qed.
+(* EqFF / NeFF: the generic operation whenever the operands are not two floats (the case the
+   property is about: a value of another type reached the typed position) ... *)
+Theorem typed_sound_eq_ff_mistyped : forall hv o a b,
+  is_float a && is_float b = false -> t_cmp_ff hv o a b = g_cmp hv o a b.
+Proof. exact typed_eq_ff_nonfloat. Qed.
 
-Theorem typed_agrees_when_tagged_ord_ff : forall hv o a b,
-  is_ord o = true -> a < W64 -> b < W64 -> is_float a = true -> is_float b = true ->
-  t_cmp_ff o a b = g_cmp hv o a b.
-Proof. exact typed_ord_ff_agrees. Qed.
-
-(* EqFF / NeFF: PARTIAL.  Missing: the codec fact `codec_eq_fact` (primitive-float == of the
-   decoded operands = IEEE == on the bit patterns as defined in Model/Value.v) is a premise,
-   not proved; it is checked on a grid (C06_codec_grid) and by the hx_vmop tie.  The excluded
-   case a = b = NaN is a real disagreement (typed_agrees_when_tagged_eq_ff_refuted). *)
-Theorem typed_agrees_when_tagged_eq_ff_partial : forall hv o a b,
+(* ... on two floats: PARTIAL.  Missing: the codec fact `codec_eq_fact` (primitive-float == of the
+   decoded operands = IEEE == on the bit patterns as defined in Model/Value.v) is a premise, not
+   proved; it is checked on a grid (C06_codec_grid) and by the hx_vmop tie.  The excluded case
+   a = b = NaN is a real difference of the two equalities (eq_on_nan_differs), not a misread. *)
+Theorem typed_sound_eq_ff_partial : forall hv o a b,
   codec_eq_fact ->
   is_ord o = false -> a < W64 -> b < W64 -> is_float a = true -> is_float b = true ->
   (a <> b \/ is_nan_bits a = false) ->
-  t_cmp_ff o a b = g_cmp hv o a b.
+  t_cmp_ff hv o a b = g_cmp hv o a b.
 Proof. exact typed_eq_ff_agrees_under_codec. Qed.
 
-Theorem typed_agrees_when_tagged_eq_ff_refuted : exists a,
-  is_float a = true /\ t_cmp_ff CEq a a = ROk (v_bool false) /\ g_cmp no_heap CEq a a = ROk (v_bool true).
-Proof. exact eq_ff_nan_refuted. Qed.
+Theorem typed_total_sound_arith_imm : forall hv o a c,
+  c < 256 -> t_arith_imm hv o a c = g_arith hv o a (v_int (Z.of_N c)).
+Proof. exact typed_arith_imm_total. Qed.
 
-Theorem typed_agrees_when_tagged_arith_imm : forall hv o a c,
-  is_int a = true -> c < 256 -> t_arith_imm o a c = g_arith hv o a (v_int (Z.of_N c)).
-Proof. exact typed_arith_imm_agrees. Qed.
+Theorem typed_total_sound_cmp_imm : forall hv o a c,
+  is_ord o = true -> c < 256 -> t_cmp_imm hv o a c = g_cmp hv o a (v_int (Z.of_N c)).
+Proof. exact typed_cmp_imm_total. Qed.
 
-Theorem typed_agrees_when_tagged_cmp_imm : forall hv o a c,
-  is_ord o = true -> is_int a = true -> c < 256 ->
-  t_cmp_imm o a c = g_cmp hv o a (v_int (Z.of_N c)).
-Proof. exact typed_cmp_imm_agrees. Qed.
+Theorem typed_total_sound_bit_imm : forall o a c,
+  c < 256 -> t_bit_imm o a c = g_bit o a (v_int (Z.of_N c)).
+Proof. exact typed_bit_imm_total. Qed.
 
-Theorem typed_agrees_when_tagged_bit_imm : forall o a c,
-  is_int a = true -> c < 256 -> t_bit_imm o a c = g_bit o a (v_int (Z.of_N c)).
-Proof. exact typed_bit_imm_agrees. Qed.
+(* the generic == / != / < .. on two ints built by Value::int is the integer comparison: the typed
+   opcodes did not change meaning for well-typed operands *)
+Theorem generic_cmp_on_ints : forall hv o x y,
+  in48 x -> in48 y -> g_cmp hv o (v_int x) (v_int y) = ROk (v_bool (int_cmp o x y)).
+Proof. exact g_cmp_ints. Qed.
 
-(* ---------------------------------------------------------------- loop_ops_need_ints *)
-Theorem loop_ops_agree_when_tagged_while : forall hv a b,
-  is_int a = true -> is_int b = true -> ROk (v_bool (while_loop_lt a b)) = g_cmp hv CLt a b.
-Proof. exact while_loop_agrees. Qed.
+(* ---------------------------------------------------------------- loop super-instructions *)
+(* WhileLoopLt is the generic `<` (None = its type error) on every pair of words *)
+Theorem loop_total_sound_while : forall a b, while_loop_lt a b = g_ord CLt a b.
+Proof. exact while_loop_total. Qed.
 
-Theorem loop_ops_agree_when_tagged_for : forall incl i e s,
-  is_int i = true -> is_int e = true -> is_int s = true ->
-  exists x y z, as_int i = Some x /\ as_int e = Some y /\ as_int s = Some z /\
-    forloop_i incl i e s =
-      (v_int (x + z),
-       if (0 <? z)%Z then (if incl then (x + z <=? y)%Z else (x + z <? y)%Z)
-       else (if incl then (y <=? x + z)%Z else (y <? x + z)%Z)).
-Proof. exact forloop_agrees. Qed.
+(* ForLoopI / ForLoopIInc: a type error exactly when some register is not an int, otherwise the
+   range step on the three ints *)
+Theorem loop_for_type_error_iff : forall incl i e s,
+  forloop_i incl i e s = None <-> is_int i && is_int e && is_int s = false.
+Proof. exact forloop_error_iff. Qed.
 
-(* with a float bound the unchecked reads give the wrong answer and no error *)
-Theorem loop_ops_need_ints_refuted :
-  (g_cmp no_heap CLt (v_int 0) W_2_5 = ROk (v_bool true) /\ while_loop_lt (v_int 0) W_2_5 = false) /\
-  (g_cmp no_heap CLt (v_int 1) W_2_5 = ROk (v_bool true) /\
-   forloop_i false (v_int 0) W_2_5 (v_int 1) = (v_int 1, false)) /\
-  (g_cmp no_heap CLt 0x401E000000000000 (v_int 5) = ROk (v_bool false) /\
-   t_cmp_imm CLt 0x401E000000000000 5 = ROk (v_bool true)).
-Proof. exact (conj while_loop_misreads_float (conj forloop_misreads_float ltimm_misreads_float)). Qed.
+Theorem loop_for_spec : forall incl i e s,
+  forloop_i incl i e s =
+  match as_int i, as_int e, as_int s with
+  | Some x, Some y, Some z =>
+      Some (v_int (x + z),
+            if (0 <? z)%Z then (if incl then (x + z <=? y)%Z else (x + z <? y)%Z)
+            else (if incl then (y <=? x + z)%Z else (y <? x + z)%Z))
+  | _, _, _ => None
+  end.
+Proof. exact forloop_spec. Qed.
 
-(* ---------------------------------------------------------------- unchecked_mismatch_refuted
-   there is a float word on which AddII returns a non-error value different from generic Add *)
-Theorem unchecked_mismatch_refuted : exists a b w,
-  is_float a = true /\ a < W64 /\
-  t_arith_ii AAdd a b = ROk w /\ g_arith no_heap AAdd a b <> ROk w /\
-  g_arith no_heap AAdd a b <> RErr ETypeError.
-Proof. exact unchecked_mismatch_witness. Qed.
-
-Theorem unchecked_mismatch_ff_refuted :
-  g_arith no_heap AAdd (v_int 1) (v_int 2) = ROk (v_int 3) /\
-  t_arith_ff AAdd (v_int 1) (v_int 2) = ROk CANONICAL_NAN.
-Proof. exact addff_misreads_int. Qed.
-
-(* ---------------------------------------------------------------- guarded_total_sound
-   "for all words: guarded op = generic op, or TypeError" -- FALSE as a whole: *)
-Theorem guarded_total_sound_refuted :
-  (* DivFFG 7 2 = 3.5, Div 7 2 = 3 *)
-  (gd_arith_ffg no_heap ADiv (v_int 7) (v_int 2) = ROk W_3_5 /\
-   g_arith no_heap ADiv (v_int 7) (v_int 2) = ROk (v_int 3)) /\
-  (* EqIIG NaN NaN = false, Eq NaN NaN = true *)
-  (gd_cmp_iig no_heap CEq CANONICAL_NAN CANONICAL_NAN = ROk (v_bool false) /\
-   g_cmp no_heap CEq CANONICAL_NAN CANONICAL_NAN = ROk (v_bool true)).
-Proof. exact guarded_total_sound_witnesses. Qed.
-
-(* the strongest true statements, family by family *)
+(* ---------------------------------------------------------------- guarded families = generic, ALL words *)
 Theorem guarded_total_sound_arith_iig : forall hv o a b,
   a < W64 -> b < W64 -> gd_arith_iig hv o a b = g_arith hv o a b.
 Proof. exact guarded_arith_iig_total. Qed.
 
-Theorem guarded_sound_arith_ffg : forall hv o a b,
-  a < W64 -> b < W64 -> is_int a && is_int b = false -> gd_arith_ffg hv o a b = g_arith hv o a b.
-Proof. exact guarded_arith_ffg_sound. Qed.
+Theorem guarded_total_sound_arith_ffg : forall hv o a b,
+  a < W64 -> b < W64 -> gd_arith_ffg hv o a b = g_arith hv o a b.
+Proof. exact guarded_arith_ffg_total. Qed.
 
-(* since fix 5bb247f the guarded orderings fall back to the generic comparison on non-numbers:
-   LtIIG..GeIIG equal the generic op on EVERY pair of words *)
 Theorem guarded_total_sound_ord_iig : forall hv o a b,
   is_ord o = true -> a < W64 -> b < W64 -> gd_cmp_iig hv o a b = g_cmp hv o a b.
 Proof. exact guarded_ord_iig_total. Qed.
 
-Theorem guarded_sound_ord_ffg : forall hv o a b,
-  is_ord o = true -> a < W64 -> b < W64 -> is_int a && is_int b = false ->
-  gd_cmp_ffg hv o a b = g_cmp hv o a b.
-Proof. exact guarded_ord_ffg_sound. Qed.
-
-(* about the OLD definition only (before 5bb247f): the guarded orderings answered false on non-numbers *)
-Theorem old_guarded_ord_nonnumeric_was_false :
-  gd_cmp_iig_old no_heap CLt v_null (v_int 1) = ROk (v_bool false) /\
-  g_cmp no_heap CLt v_null (v_int 1) = RErr ETypeError /\
-  gd_cmp_iig no_heap CLt v_null (v_int 1) = RErr ETypeError.
-Proof. exact old_guarded_ord_answered_false. Qed.
+Theorem guarded_total_sound_ord_ffg : forall hv o a b,
+  is_ord o = true -> a < W64 -> b < W64 -> gd_cmp_ffg hv o a b = g_cmp hv o a b.
+Proof. exact guarded_ord_ffg_total. Qed.
 
 Theorem guarded_sound_eq_ints : forall hv o x y,
   in48 x -> in48 y -> gd_cmp_iig hv o (v_int x) (v_int y) = g_cmp hv o (v_int x) (v_int y).
 Proof. exact guarded_eq_ints. Qed.
 
 Theorem guarded_sound_eq_nonnumeric : forall hv o a b,
-  is_ord o = false -> a < W64 -> b < W64 -> is_num a && is_num b = false ->
+  a < W64 -> b < W64 -> is_num a && is_num b = false ->
   gd_cmp_iig hv o a b = g_cmp hv o a b /\ gd_cmp_ffg hv o a b = g_cmp hv o a b.
 Proof. exact guarded_eq_nonnum. Qed.
 
+(* the one remaining difference between the specialised and the generic operations: == on the
+   canonical NaN (IEEE: false; Value ==: true by its raw-bits shortcut).  Both operands are floats. *)
+Theorem eq_on_nan_differs :
+  is_float CANONICAL_NAN = true /\
+  t_cmp_ff no_heap CEq CANONICAL_NAN CANONICAL_NAN = ROk (v_bool false) /\
+  gd_cmp_iig no_heap CEq CANONICAL_NAN CANONICAL_NAN = ROk (v_bool false) /\
+  g_cmp no_heap CEq CANONICAL_NAN CANONICAL_NAN = ROk (v_bool true).
+Proof. exact eq_nan_differs. Qed.
+
 (* ---------------------------------------------------------------- selection *)
-(* select_never_unguarded_on_uncertain: TRUE at full strength since fix da40ed1 *)
+(* with an uncertain / dynamic operand no operator gets a type-specialised (II / FF) opcode *)
 Theorem select_never_unguarded_on_uncertain : forall op l r,
   is_certain l && is_certain r = false -> is_specialised_opcode (select_opcode op l r) = false.
 Proof. exact select_guarded_all. Qed.
 
-(* the unchecked shift / bitwise opcodes are chosen exactly for two integer types without guard *)
-Theorem select_bitwise_unchecked_exactly : forall op l r,
+Theorem select_bitwise_specialised_exactly : forall op l r,
   is_bitwise op = true ->
   is_specialised_opcode (select_opcode op l r) =
   is_integer (unwrap_uncertain l) && is_integer (unwrap_uncertain r)
   && negb (needs_guard l || needs_guard r).
 Proof. exact select_bitwise_exact. Qed.
-
-(* about the OLD definition only (before da40ed1): guarded int selection returned ShlII.. *)
-Theorem old_select_guarded_int_was_unchecked :
-  is_specialised_opcode (select_guarded_int_opcode_old OpShl) = true /\
-  is_specialised_opcode (select_guarded_int_opcode OpShl) = false /\
-  select_opcode OpShl (RUncertain RI64) (RUncertain RI64) = O_Shl.
-Proof. exact old_guarded_int_selection_was_unchecked. Qed.
 
 Theorem select_typed_only_for_static_int_or_float : forall op l r,
   is_specialised_opcode (select_opcode op l r) = true ->
@@ -190,17 +152,77 @@ Theorem select_dynamic_is_generic : forall op t,
   select_opcode op t RDynamic = select_generic_opcode op.
 Proof. exact select_dynamic_generic. Qed.
 
-(* selection composed with the VM: if the runtime words carry the tags their static types
-   promise, the selected opcode computes exactly what the generic opcode computes *)
-Theorem selected_opcode_agrees_when_tags_match : forall hv op l r a b,
+(* selection composed with the VM, FULL STRENGTH: for every operator, every pair of static types
+   (honest or not) and every pair of 64-bit words, the selected opcode computes exactly what the
+   generic opcode of the operator computes (a value or its error) *)
+Theorem selected_opcode_sound_all_words : forall hv op l r a b,
   is_eqop op = false -> a < W64 -> b < W64 ->
-  word_has_type l a = true -> word_has_type r b = true ->
   run_selected hv op l r a b = Some (run_binsem hv (generic_sem op) a b).
-Proof. exact selected_agrees_when_tags_match. Qed.
+Proof. exact selected_sound_all_words. Qed.
 
+(* == and != : the same when no operand is a float and int operands are words Value::int builds *)
+Theorem selected_eq_sound : forall hv op l r a b,
+  is_eqop op = true -> a < W64 -> b < W64 ->
+  is_float a = false -> is_float b = false -> canon_int a -> canon_int b ->
+  run_selected hv op l r a b = Some (run_binsem hv (generic_sem op) a b).
+Proof. exact selected_eq_sound. Qed.
+
+(* ---------------------------------------------------------------- generated structure of the dispatch loop *)
 (* the VM's dispatch arms (numeric literals in the .inc files) are the enum's discriminants *)
 Theorem dispatch_numbers_match_enum : dispatch_numbers_ok = true.
 Proof. exact dispatch_numbers_check. Qed.
+
+(* Extracted/DispatchArms.v (regenerated from the .inc files on every run): opcodes the model
+   treats as one operation share a match arm; every modelled opcode has an arm; no arm of the
+   arithmetic / comparison / bitwise / control-flow dispatch calls as_int_unchecked /
+   as_float_unchecked *)
+Theorem dispatch_arms_match_model :
+  model_aliases_in_code = true /\ modelled_opcodes_have_arms = true /\
+  no_unchecked_accessor_in_dispatch = true.
+Proof. exact dispatch_arms_facts. Qed.
+
+(* ---------------------------------------------------------------- the OLD definitions (record of the defects) *)
+(* before 7e82908: AddII on the float 2.5 returned a non-error int different from generic Add *)
+Theorem old_unchecked_mismatch :
+  is_float W_2_5 = true /\
+  g_arith no_heap AAdd W_2_5 (v_int 1) = ROk W_3_5 /\
+  t_arith_ii no_heap AAdd W_2_5 (v_int 1) = ROk W_3_5 /\
+  exists w, t_arith_ii_old AAdd W_2_5 (v_int 1) = ROk w /\ is_int w = true /\ w <> W_3_5.
+Proof. exact old_addii_misread_float. Qed.
+
+Theorem old_unchecked_mismatch_ff :
+  g_arith no_heap AAdd (v_int 1) (v_int 2) = ROk (v_int 3) /\
+  t_arith_ff no_heap AAdd (v_int 1) (v_int 2) = ROk (v_int 3) /\
+  t_arith_ff_old AAdd (v_int 1) (v_int 2) = ROk CANONICAL_NAN.
+Proof. exact old_addff_misread_int. Qed.
+
+Theorem old_loop_ops_needed_ints :
+  (g_ord CLt (v_int 0) W_2_5 = Some true /\ while_loop_lt (v_int 0) W_2_5 = Some true /\
+   while_loop_lt_old (v_int 0) W_2_5 = false) /\
+  (forloop_i false (v_int 0) W_2_5 (v_int 1) = None /\
+   forloop_i_old false (v_int 0) W_2_5 (v_int 1) = (v_int 1, false)) /\
+  (g_cmp no_heap CLt 0x401E000000000000 (v_int 5) = ROk (v_bool false) /\
+   t_cmp_imm no_heap CLt 0x401E000000000000 5 = ROk (v_bool false) /\
+   t_cmp_imm_old CLt 0x401E000000000000 5 = ROk (v_bool true)).
+Proof. exact old_loops_misread_float. Qed.
+
+Theorem old_ffg_promoted_two_ints :
+  gd_arith_ffg_old no_heap ADiv (v_int 7) (v_int 2) = ROk W_3_5 /\
+  gd_arith_ffg no_heap ADiv (v_int 7) (v_int 2) = ROk (v_int 3) /\
+  g_arith no_heap ADiv (v_int 7) (v_int 2) = ROk (v_int 3).
+Proof. exact old_ffg_promoted_ints. Qed.
+
+Theorem old_guarded_ord_nonnumeric_was_false :
+  gd_cmp_iig_old no_heap CLt v_null (v_int 1) = ROk (v_bool false) /\
+  g_cmp no_heap CLt v_null (v_int 1) = RErr ETypeError /\
+  gd_cmp_iig no_heap CLt v_null (v_int 1) = RErr ETypeError.
+Proof. exact old_guarded_ord_answered_false. Qed.
+
+Theorem old_select_guarded_int_was_unchecked :
+  is_specialised_opcode (select_guarded_int_opcode_old OpShl) = true /\
+  is_specialised_opcode (select_guarded_int_opcode OpShl) = false /\
+  select_opcode OpShl (RUncertain RI64) (RUncertain RI64) = O_Shl.
+Proof. exact old_guarded_int_selection_was_unchecked. Qed.
 
 (* ---------------------------------------------------------------- non-vacuity / grids *)
 Example C06_codec_grid :
@@ -209,15 +231,19 @@ Example C06_codec_grid :
 Proof. exact (conj codec_eq_grid codec_roundtrip_grid). Qed.
 
 Example C06_nonvacuous :
-  (* hypotheses of the agreement theorems are met by real, non-trivial operands *)
   is_int (v_int (-140737488355328)) = true /\ is_float W_2_5 = true /\ W_2_5 < W64 /\
-  t_arith_ii AMul (v_int 140737488355327) (v_int 3) = ROk (v_int 140737488355325) /\
-  t_arith_ff ADiv (v_int 1) W_2_5 = ROk CANONICAL_NAN /\
-  gd_arith_iig no_heap AAdd (v_int 1) W_2_5 = ROk W_3_5.
+  t_arith_ii no_heap AMul (v_int 140737488355327) (v_int 3) = ROk (v_int 140737488355325) /\
+  t_arith_ii no_heap AAdd W_2_5 (v_int 1) = ROk W_3_5 /\
+  t_arith_ff no_heap ADiv (v_int 1) W_2_5 = g_arith no_heap ADiv (v_int 1) W_2_5 /\
+  t_arith_imm no_heap AAdd v_null 3 = RErr ETypeError /\
+  gd_arith_iig no_heap AAdd (v_int 1) W_2_5 = ROk W_3_5 /\
+  forloop_i true (v_int 1) (v_int 2) (v_int 1) = Some (v_int 2, true).
 Proof. exact nonvacuous_c06. Qed.
 
 Example C06_nonvacuous_select :
-  word_has_type RI64 (v_int 7) = true /\ word_has_type RI64 W_2_5 = false /\
   select_opcode OpAdd RI64 RF64 = O_AddFFG /\ select_opcode OpAdd RI64 RDynamic = O_Add /\
-  select_opcode OpShl (RUncertain RI64) RI64 = O_Shl /\ select_opcode OpAdd (RUncertain RI64) RI64 = O_AddIIG.
+  select_opcode OpShl (RUncertain RI64) RI64 = O_Shl /\ select_opcode OpAdd (RUncertain RI64) RI64 = O_AddIIG /\
+  select_opcode OpMul RI32 RF32 = O_MulFFG /\ select_opcode OpLt RU8 RI64 = O_LtII /\
+  run_selected no_heap OpAdd RI64 RI64 W_2_5 (v_int 1) = Some (ROk W_3_5) /\
+  canon_int (v_int 5) /\ canon_int v_null.
 Proof. exact nonvacuous_select. Qed.
